@@ -14,7 +14,7 @@ import session as S
 FACET_OPS = {
     "C01": {35, 38},
     "C02": {41, 42, 43, 47},
-    "C03": {33, 37, 38, 46},
+    "C03": {33, 37, 38, 46, 48},
     "C04": {20, 21, 23, 36},
     "C05": {24, 25},
     "C06": {22, 21},
@@ -24,11 +24,11 @@ FACET_OPS = {
     "C10": {31},
     "C12": set(),
     "C13": {28, 29},
-    "C19": {45, 39, 64},
+    "C19": {45, 39, 64, 48},
     "C20": {27},
     "C17": {40},
-    "C11": {35, 36, 38, 42, 45, 20, 21, 24, 33, 34, 37, 43, 44},
-    "C15": {35, 36, 38, 42, 45, 20, 21, 24, 33, 34, 37, 43, 44, 41, 39},
+    "C11": {35, 36, 38, 42, 45, 20, 21, 24, 33, 34, 37, 43, 44, 48},
+    "C15": {35, 36, 38, 42, 45, 20, 21, 24, 33, 34, 37, 43, 44, 41, 39, 48},
 }
 
 
